@@ -9,6 +9,7 @@ package props
 
 import (
 	"bytes"
+	"errors"
 	"fmt"
 	"net"
 	"time"
@@ -62,7 +63,7 @@ func genUCase(o uOpts) func(t *rapid.T) UCase {
 			maxClients = 7
 		}
 		c.ClientIPs = rapid.SliceOfN(rapid.SampledFrom(uClientIPs), 1, maxClients).Draw(t, "clients")
-		c.Targets = rapid.SliceOfN(rapid.SampledFrom([]string{"v4", "v4", "v6"}), 1, 4).Draw(t, "targets")
+		c.Targets = rapid.SliceOfN(rapid.SampledFrom([]string{"v4", "v4", "v6", "v4x"}), 1, 4).Draw(t, "targets")
 		c.TimeoutMs = 300_000
 		if o.expiry {
 			c.TimeoutMs = rapid.SampledFrom([]int{120, 200, 350}).Draw(t, "timeout")
@@ -147,6 +148,7 @@ type uWorld struct {
 	targets  []*kit.UDPPeer
 	stranger map[string]*kit.UDPPeer
 	fence    *kit.UDPPeer
+	fenceTgt *kit.UDPPeer // the fence client's own (always allowed) target
 	fenceKey kit.KeySpec
 	model    []kit.KeySpec
 	assoc    map[int]*uAssoc // live association per client index
@@ -178,6 +180,16 @@ func (w *uWorld) ensureFresh(i, ci int) *kit.Finding {
 
 const uBound = 3 * time.Second
 
+// forbiddenTargetIP is refused by the validator the UDP worlds install (everything else is permitted).
+const forbiddenTargetIP = "127.0.0.66"
+
+func permitAllBut66(ip net.IP) error {
+	if ip.Equal(net.ParseIP(forbiddenTargetIP)) {
+		return errors.New("destination not allowed in this world")
+	}
+	return nil
+}
+
 func (w *uWorld) close() {
 	for _, p := range w.clients {
 		p.Close()
@@ -190,6 +202,9 @@ func (w *uWorld) close() {
 	}
 	if w.fence != nil {
 		w.fence.Close()
+	}
+	if w.fenceTgt != nil {
+		w.fenceTgt.Close()
 	}
 	if w.front != nil {
 		w.front.Close(2 * time.Second)
@@ -233,6 +248,9 @@ func newUWorld(c UCase, info *kit.Info, validator func(net.IP) error) (*uWorld, 
 		if fam == "v6" && have6 {
 			ip = "::1"
 		}
+		if fam == "v4x" {
+			ip = forbiddenTargetIP // a destination the policy of this world refuses
+		}
 		p, err := kit.NewUDPPeer(ip, 0)
 		if err != nil {
 			w.skipped = "cannot bind target socket"
@@ -242,6 +260,9 @@ func newUWorld(c UCase, info *kit.Info, validator func(net.IP) error) (*uWorld, 
 	}
 	if w.fence, err = kit.NewUDPPeer("127.0.0.1", 0); err != nil {
 		w.skipped = "cannot bind fence socket"
+	}
+	if w.fenceTgt, err = kit.NewUDPPeer("127.0.0.1", 0); err != nil {
+		w.skipped = "cannot bind fence target socket"
 	}
 	return w, nil
 }
@@ -296,7 +317,7 @@ func (w *uWorld) buildDatagram(op UOp) (pkt []byte, keySpec kit.KeySpec) {
 // fenceThrough sends a valid datagram from the fence client to target ti and waits for it;
 // returns every non-fence datagram that any target received meanwhile.
 func (w *uWorld) fenceThrough(ti int, tag int64) (stray []string, f *kit.Finding) {
-	tgt := w.targets[ti]
+	tgt := w.fenceTgt // processed strictly after everything sent before it (one packet loop)
 	marker := append([]byte("FENCE"), kit.DetBytes(tag, 8)...)
 	plain := append(kit.SocksAddr(tgt.Addr.IP.String(), tgt.Addr.Port, false), marker...)
 	k := w.fenceKey.Key()
@@ -321,7 +342,7 @@ func (w *uWorld) fenceThrough(ti int, tag int64) (stray []string, f *kit.Finding
 				return stray, nil
 			}
 			if !bytes.HasPrefix(d.Data, []byte("FENCE")) {
-				stray = append(stray, fmt.Sprintf("target %d got %d bytes from %v", ti, len(d.Data), d.From))
+				stray = append(stray, fmt.Sprintf("fence target got %d bytes from %v", len(d.Data), d.From))
 			}
 		}
 	}
@@ -387,17 +408,24 @@ func (w *uWorld) doSend(i int, op UOp) *kit.Finding {
 			}
 		}
 	}
-	expectForward := opens && addrOK
+	allowedDst := w.c.Targets[op.Target] != "v4x"
+	expectForward := opens && addrOK && allowedDst
 	rec := uSendRec{Op: i, Client: op.Client, WireLen: len(pkt), Forwarded: expectForward, PayloadLen: len(payload)}
 	switch {
 	case a != nil && !opens:
 		rec.OnAssoc, rec.Status = true, "ERR_CIPHER"
 	case a != nil && !addrOK:
 		rec.OnAssoc, rec.Status = true, "ERR_READ_ADDRESS"
+	case a != nil && !allowedDst:
+		rec.OnAssoc, rec.Status = true, "ERR_ADDRESS_INVALID"
 	case expectForward:
 		rec.OnAssoc, rec.Status = true, "OK"
 	}
 	w.info.Class("send:"+op.Mut, fmt.Sprintf("send-forward:%v", expectForward), fmt.Sprintf("send-known-client:%v", a != nil))
+	if opens && addrOK && !allowedDst {
+		w.info.Class("send-to-refused-destination")
+		w.info.NonTrivial = true
+	}
 
 	tgt := w.targets[op.Target]
 	socketsBefore := kit.OpenSockets()
